@@ -222,6 +222,66 @@ def run(tier, v):
                 continue
             srt = sorted if i in unordered else (lambda x: x)
             f.write(json.dumps({"id": i, "conns": [{"inter": srt(per[k]), "alone": srt(alone[(crate, c)])} for k, c in enumerate(cs)]}) + "\n")
+    # ---- timed connections (TCP timestamp clocks): the frames carry their own capture time (hook H1), so that uptime estimates
+    # are produced; several connections between the SAME two hosts (other ports, either host as the client), one of them with
+    # timestamps that make its estimate fail (second sample 2 ms after the first).  Packet path, one tracker for the interleaving.
+    T0 = 1_700_000_000_000
+
+    def timed(cip, sip, cp, sp, t, cts, sts, gap, cticks, sticks):
+        tso = lambda val, ecr: b"\x01\x01\x08\x0a" + val.to_bytes(4, "big") + ecr.to_bytes(4, "big")
+        syno = lambda val: b"\x02\x04\x05\xb4\x04\x02\x08\x0a" + val.to_bytes(4, "big") + b"\x00\x00\x00\x00\x01\x03\x03\x07"
+        fr = [c10.frame(cip, sip, cp, sp, 100, 0, 0x02, opts=syno(cts), ipid=cp), c10.frame(sip, cip, sp, cp, 900, 101, 0x12, opts=syno(sts), ipid=cp + 1, ttl=128),
+              c10.frame(cip, sip, cp, sp, 101, 901, 0x10, opts=tso(cts + cticks, sts), ipid=cp + 2), c10.frame(sip, cip, sp, cp, 901, 101, 0x18, b"hi", opts=tso(sts + sticks, cts + cticks), ipid=cp + 3, ttl=128)]
+        return {"frames": fr, "clock": [T0 + t, T0 + t + 1, T0 + t + gap, T0 + t + gap + 1]}
+    A_, B_ = (10, 70, 0, 1), (10, 70, 0, 2)
+    tl = {"up_bad": timed(A_, B_, 40001, 80, 0, 1000, 2000, 2, 1, 1), "up_good": timed(A_, B_, 40002, 443, 5, 50000, 90000, 1000, 100, 1000),
+          "up_good_rev": timed(B_, A_, 40003, 8080, 9, 777000, 333000, 2000, 2000, 200), "up_good_same_ports": timed(A_, (10, 70, 0, 3), 40001, 80, 3, 424242, 808080, 1000, 250, 100)}
+    tsets = [("up_bad", "up_good"), ("up_bad", "up_good_rev"), ("up_good", "up_good_rev"), ("up_bad", "up_good_same_ports"), ("up_bad", "up_good", "up_good_rev")]
+    tlines, tmeta = [], {}
+    for cs in tsets:
+        key = tuple(4 for _ in cs)
+        if key not in sched_cache:
+            acc = []
+            r = vlib.tlc("MC_C07", pid=PID, workers=8, env={"VERIF_MODE": "sched", "VERIF_DEV": "none", "VERIF_LENS": ",".join(map(str, key))}, timeout=1800,
+                         tag_sink=lambda tag, o: acc.append(o["sched"]), heap="10g", coverage=False)
+            states += r.distinct
+            trans += r.generated
+            acc.sort()
+            sched_cache[key] = acc
+        scheds = list(sched_cache[key])
+        if len(scheds) > cap * 2:
+            rng.shuffle(scheds)
+            scheds = scheds[:cap * 2]
+        for sc in scheds:
+            ptr = [0] * len(cs)
+            frames, clock = [], []
+            for c in sc:
+                frames.append(tl[cs[c - 1]]["frames"][ptr[c - 1]].hex())
+                clock.append(tl[cs[c - 1]]["clock"][ptr[c - 1]])
+                ptr[c - 1] += 1
+            tmeta[len(tlines)] = (cs, sc)
+            tlines.append({"id": len(tlines), "op": "frames", "frames": frames, "clock": clock})
+    nt = len(tlines)
+    for k, name in enumerate(sorted(tl)):
+        tlines.append({"id": nt + k, "op": "frames", "frames": [f.hex() for f in tl[name]["frames"]], "clock": tl[name]["clock"]})
+    treq = os.path.join(wd, "timed.req")
+    vlib.write_ndjson(treq, tlines)
+    tout = os.path.join(wd, "timed.out")
+    vlib.run_hv("tcp", treq, tout, timeout=3000)
+    touts = {o["id"]: o["out"] for o in vlib.read_ndjson(tout)}
+    talone = {name: [dg(x) for x in touts[nt + k]] for k, name in enumerate(sorted(tl))}
+    n_up = sum(1 for name in tl for x in touts[nt + sorted(tl).index(name)] if x.get("res") and (x["res"].get("client_uptime") or x["res"].get("server_uptime")))
+    if n_up < 2:      # anti-vacuity only: whether the estimates are the right ones is C19's business
+        raise vlib.ToolError("timed connections: %d uptime estimates are produced when the connections are analysed alone (6 on the pinned tree): the timed part would be vacuous" % n_up)
+    with open(trace, "a") as f:
+        for i, (cs, sc) in tmeta.items():
+            per = [[] for _ in cs]
+            for c, x in zip(sc, touts[i]):
+                per[c - 1].append(dg(x))
+            n_nontriv += 1
+            meta[1000000 + i] = ("tcp (timed, packet path)", cs, sc)
+            inter[1000000 + i] = None
+            f.write(json.dumps({"id": 1000000 + i, "conns": [{"inter": per[k], "alone": talone[c]} for k, c in enumerate(cs)]}) + "\n")
     r2 = vlib.tlc("TV_C07", pid=PID, workers=8, env={"TRACE": trace}, timeout=1800, heap="10g")
 
     if tier == "thorough":
@@ -234,6 +294,14 @@ def run(tier, v):
         v.binding.append(vlib.binding_demo("TV_C07", trace, mut, PID, workers=4, timeout=900, heap="4g"))
     for b in r2.lines.get("BAD", []):
         crate, cs, sc = meta[b["id"]]
+        if b["id"] >= 1000000:
+            i = b["id"] - 1000000
+            rows = {c: [x.get("res") for cc, x in zip(sc, touts[i]) if cs[cc - 1] == c] for c in cs}
+            v.violation({"analyzer": crate, "connections": cs, "schedule": sc, "connections_whose_results_differ": [cs[k - 1] for k in b["conns"]],
+                         "interleaved_per_frame": {cs[k - 1]: [{kk: vv for kk, vv in (r_ or {}).items() if vv and kk.endswith("uptime")} for r_ in rows[cs[k - 1]]] for k in b["conns"]},
+                         "alone_per_frame": {cs[k - 1]: [{kk: vv for kk, vv in ((x.get("res") or {}).items()) if vv and kk.endswith("uptime")} for x in touts[nt + sorted(tl).index(cs[k - 1])]] for k in b["conns"]},
+                         "frames": [tl[cs[c - 1]]["frames"][0][26:34].hex() for c in sc]})
+            continue
         per = attribute(crate, inter[b["id"]], [lib[c] for c in cs])
         if cs[0].startswith("sq_"):
             v.violation({"analyzer": crate, "connection_followed_by_a_new_one_on_the_same_4_tuple": cs, "reported_for_the_tuple": attribute(crate, inter[b["id"]], [lib[cs[0]]])[0],
@@ -247,7 +315,7 @@ def run(tier, v):
         "evaluations": len(meta), "distinct_nontrivial": n_nontriv,
         "rule": "connection sets %s; every order-preserving interleaving enumerated by TLC (capped at %d seeded samples per set in this tier); non-trivial = schedules in which some connection has a result" % ({k: len(x) for k, x in sets.items()}, cap),
         "samples": [{"analyzer": meta[0][0], "connections": meta[0][1], "schedule": meta[0][2]}], "exhaustive": tier == "thorough",
-    }, ["connections have distinct 4-tuples (some differ in a single component); their number is far below the table capacity", "results are attributed to a connection by the reported endpoint pair", "clock frozen through hook H1",
+    }, ["connections have distinct 4-tuples (some differ in a single component); their number is far below the table capacity", "results are attributed to a connection by the reported endpoint pair", "clock frozen through hook H1 (front-end runs) or set per frame (timed connections, packet path)",
         "HTTP/2 connection starts are rendered by Hpack.tla / Http2.tla"])
 
 
